@@ -24,12 +24,17 @@ def _alarm(*a):
 
 
 def guarded(f, *args, limit=10, **kw):
-    """call f with a wall-clock limit (seconds); raises Timeout"""
+    """call f with a limit of `limit` seconds of *CPU time* of this process (a call that does not terminate burns CPU; a call that
+    is merely starved on a busy machine does not, so the verdict does not depend on the load), and a wall-clock backstop of
+    10 x limit for a call that blocks without computing; raises Timeout"""
+    signal.signal(signal.SIGPROF, _alarm)
     signal.signal(signal.SIGALRM, _alarm)
-    signal.setitimer(signal.ITIMER_REAL, limit)
+    signal.setitimer(signal.ITIMER_PROF, limit)
+    signal.setitimer(signal.ITIMER_REAL, 10 * limit)
     try:
         return f(*args, **kw)
     finally:
+        signal.setitimer(signal.ITIMER_PROF, 0)
         signal.setitimer(signal.ITIMER_REAL, 0)
 
 
